@@ -215,6 +215,13 @@ def run(F, R, tier):
     j = [n for n in pu["_nodes"] if n.get("k") == "MethodCall" and (n.get("fn") or "").endswith("Url::join")]
     R.ob("C07-e", "the package URL is the registry URL joined with name/version/", len(j) == 1 and peel_value(j[0]["recv"]).get("lid") == pu["body"]["params"][0].get("lid"), "package url construction changed", pu["file"])
 
+    for fn, fld in (("packages::PackageSpecifiers::add_dependency", "found_dependencies"), ("packages::PackageSpecifiers::add_export", "exports")):
+        b_ = F.body(fn)
+        ins_ = [n for n in b_["_nodes"] if n.get("k") == "MethodCall" and n["name"] == "insert" and peel(n["recv"]).get("field") == fld]
+        bad, _ = must_pass(F, b_["body"]["value"], lambda n: n in ins_)
+        R.ob("C07-d", "%s records what it is given on every path" % fn.split("::")[-1], len(ins_) == 1 and not bad,
+             "a path through %s returns without inserting into %s: some requirement / export a package's module uses is not recorded" % (fn.split("::")[-1], fld), where(bad[0][1]) if bad else b_["file"])
+
     # ---------------- C07-d ------------------------------------------------
     an = F.body("packages::PackageSpecifiers::add_nv")
     ins = [n for n in an["_nodes"] if n.get("k") == "MethodCall" and n["name"] == "insert" and peel(n["recv"]).get("field") == "package_reqs"]
